@@ -16,7 +16,11 @@ mutator call, every reduction and every read of a co-written array in every
 What ties the two layers (that an effect classified `loopVar`, `guardedMod`,
 `csrSeg`, `privateAlloc` really is an operation on a row no other iteration
 touches, and that `intReduction` is exact and commutative) is the translator's
-contract, stated in the trusted base.
+contract.  The ownership part of that contract is validated on every run on the
+running code by `harness/footprint_trace.py` (interpreter-mode recorder: every
+element read / written by every iteration of every `prange` loop it reaches,
+`W(i) ∩ W(j) = ∅` and `W(i) ∩ R(j) = ∅` for `i ≠ j`); the reduction part and the
+loops / inputs the recorder does not reach stay in the trusted base.
 -/
 namespace Pynn.C05
 open Pynn.Par Pynn.FP
